@@ -213,7 +213,13 @@ func randRT(r *rand.Rand, maxv int) Case {
 		written = written || claimed || unspec
 	}
 	if !written {
-		kinds = append(kinds, attrKinds[0])
+		inMesh := false
+		for _, k := range kinds {
+			inMesh = inMesh || (k.n == "Position" && k.ar == 3)
+		}
+		if !inMesh {
+			kinds = append(kinds, attrKinds[0])
+		}
 		hasPos := false
 		for _, p := range o.Props {
 			hasPos = hasPos || (p.Attr == "Position" && p.Ar == 3)
